@@ -291,6 +291,13 @@ func gen(tier string, rng *h.Rng, emit func(string)) {
 		}
 		emit(fmt.Sprintf("pk %s %s", h.Hex(mar), k))
 	}
+	// concurrent callers on one adaptor: the queue serialises them, accepted nonces are consecutive (review E #10)
+	for _, kk := range [][2]int{{1, 7}, {2, 7}, {3, 0}, {8, 7}, {16, 1000}, {32, 4294967290}} {
+		emit(fmt.Sprintf("cc %d %d", kk[0], kk[1]))
+	}
+	// the identity group key (k·G2 for k = 0 or the group order) marshals to ONE byte: decodePubKey returns an error
+	// since /repo ae5b22f (it panicked on the slice before): review E #7
+	emit("pk 00")
 	// 3. the real adaptor. every assignment of the six property outcomes to 1..3 endpoints
 	k := 0
 	cfg := func() string {
